@@ -313,7 +313,19 @@ func ruleEFloatArithSites(p *Program, r *Reporter) {
 					}
 				}
 				_, unary := in.(*ssa.UnOp)
+				// an entry of an operator table: an anonymous function of the package initialiser whose float parameters are
+				// the operands; what is passed to it is decided by E-OPCHAIN, which interprets the call through the table
+				tableEntry := fn.Parent() != nil && fn.Parent().Name() == "init"
+				if tableEntry {
+					for _, o := range operands {
+						if _, isParam := o.(*ssa.Parameter); !isParam {
+							tableEntry = false
+						}
+					}
+				}
 				switch {
+				case tableEntry:
+					r.OK(in.Pos(), key, "entry of an operator table applied to its own parameters (the operands it receives are decided by E-OPCHAIN)")
 				case pair && !unary:
 					r.OK(in.Pos(), key, "operator fast path on the pair returned by the float pair coercion")
 				case unary && single:
